@@ -148,6 +148,10 @@ def type_of(e):
         _, op, a, b = e
         ia, (da, sa) = type_of(a)
         ib, (db, sb) = type_of(b)
+        if op == "matmul":
+            if not sa or not sb or len(sa) > 2 or len(sb) > 2 or sa[-1] != sb[0]:
+                raise IllTyped("matmul shapes")
+            return _merge(ia, ib), ("real", tuple(sa[:-1]) + tuple(sb[1:]))
         try:
             shape = tuple(np.broadcast_shapes(sa, sb))
         except ValueError:
